@@ -113,22 +113,32 @@ pub fn install_hooks() {
 
 // ---------------------------------------------------------------------------------------------- scripted wakers
 
+/// One waker object (the original made by the harness or a clone made by the code under test).  The data is LEAKED, never
+/// freed: a waker that the code under test releases twice (or uses after releasing) must show up as events for the
+/// judge (`wdrop` / `wwake` without a matching `wclone`), not corrupt the harness's heap.
 struct WData {
     id: u32,
     original: bool,
+    /// how often this object was consumed (wake or drop); > 1 = released twice
+    consumed: std::sync::atomic::AtomicU32,
+}
+
+fn w_new(id: u32, original: bool) -> *const () {
+    let d: &'static WData = Box::leak(Box::new(WData { id, original, consumed: std::sync::atomic::AtomicU32::new(0) }));
+    std::ptr::from_ref(d).cast()
 }
 
 fn w_clone(p: *const ()) -> RawWaker {
-    // SAFETY: p was produced by Box::into_raw(Box<WData>) and is alive while any waker referring to it is
+    // SAFETY: p came from w_new: leaked, alive forever
     let d = unsafe { &*(p as *const WData) };
     log_ev(json!({"ev":"wclone","w":d.id}));
     local::on_callback("clone", d.id);
-    let n = Box::new(WData { id: d.id, original: false });
-    RawWaker::new(Box::into_raw(n) as *const (), &VTABLE)
+    RawWaker::new(w_new(d.id, false), &VTABLE)
 }
 fn w_wake(p: *const ()) {
     // SAFETY: see w_clone; wake consumes the waker
-    let d = unsafe { Box::from_raw(p as *mut WData) };
+    let d = unsafe { &*(p as *const WData) };
+    d.consumed.fetch_add(1, Ordering::Relaxed);
     log_ev(json!({"ev":"wwake","w":d.id}));
     local::on_callback("wake", d.id);
 }
@@ -139,8 +149,10 @@ fn w_wake_by_ref(p: *const ()) {
 }
 fn w_drop(p: *const ()) {
     // SAFETY: see w_clone
-    let d = unsafe { Box::from_raw(p as *mut WData) };
-    if !d.original {
+    let d = unsafe { &*(p as *const WData) };
+    let before = d.consumed.fetch_add(1, Ordering::Relaxed);
+    // the harness drops its original exactly once (not an event); anything else is an event, also a second release
+    if !d.original || before > 0 {
         log_ev(json!({"ev":"wdrop","w":d.id}));
         local::on_callback("drop", d.id);
     }
@@ -148,9 +160,8 @@ fn w_drop(p: *const ()) {
 static VTABLE: RawWakerVTable = RawWakerVTable::new(w_clone, w_wake, w_wake_by_ref, w_drop);
 
 pub fn make_waker(id: u32) -> Waker {
-    let d = Box::new(WData { id, original: true });
-    // SAFETY: the vtable functions uphold the RawWaker contract for Box<WData>
-    unsafe { Waker::from_raw(RawWaker::new(Box::into_raw(d) as *const (), &VTABLE)) }
+    // SAFETY: the vtable functions uphold the RawWaker contract for the leaked WData
+    unsafe { Waker::from_raw(RawWaker::new(w_new(id, true), &VTABLE)) }
 }
 
 /// Payload whose destructor is an event.
